@@ -56,12 +56,116 @@ def brief(sg):
     return f"{sg[0]}:" + ",".join(f"{e[0]}@{e[1]}" for e in sg[1])[:300]
 
 
+PANDAS_OPTIONS = ("future.no_silent_downcasting", "future.infer_string",
+                  "mode.copy_on_write", "mode.chained_assignment",
+                  "mode.use_inf_as_na", "mode.data_manager",
+                  "mode.string_storage", "compute.use_numexpr",
+                  "compute.use_bottleneck", "compute.use_numba")
+
+
+def _flat(d, prefix=""):
+    for k, v in d.items():
+        if isinstance(v, dict):
+            yield from _flat(v, prefix + k + ".")
+        else:
+            yield prefix + k, v
+
+
+def _opt(k):
+    try:
+        from pandas._config import config as _pc
+        d = _pc._global_config
+        for part in k.split("."):
+            d = d[part]
+        if not isinstance(d, dict):
+            return repr(d)
+    except Exception:  # private layout changed / option unknown
+        pass
+    return repr(pd.get_option(k))
+
+
+def proc_state(full=True):
+    """Process-wide state outside pandera that a validation could touch and
+    that changes the meaning of other threads' / later calls: every pandas
+    option, numpy's floating point error state, the warnings filters, the
+    polars Config.  ``full=False``: the cheap subset sampled by the probe."""
+    import warnings
+
+    import numpy as np
+    d = {}
+    if full:
+        try:
+            from pandas._config import config as _pc
+            for k, v in _flat(_pc._global_config):
+                d["pandas." + k] = repr(v)
+        except Exception:  # private layout changed: the named options below
+            pass
+    for k in PANDAS_OPTIONS:
+        if "pandas." + k in d:
+            continue
+        try:
+            d["pandas." + k] = _opt(k)
+        except Exception:  # option unknown to this pandas
+            pass
+    for k, v in np.geterr().items():
+        d["numpy.err." + k] = v
+    d["warnings.filters.len"] = len(warnings.filters)
+    if full:
+        d["warnings.filters"] = [
+            (f[0], getattr(f[2], "__name__", repr(f[2])), repr(f[1])[:40],
+             repr(f[3])[:40], f[4]) for f in warnings.filters]
+        try:
+            for k, v in pl.Config.state().items():
+                d["polars." + k] = repr(v)
+        except Exception:
+            pass
+    return d
+
+
+def proc_restore(before):
+    """Put back what a leak changed (pandas options, numpy error state) so
+    that one reported leak does not contaminate the following schedules."""
+    import numpy as np
+    now = proc_state()
+    for k, v in before.items():
+        if now.get(k) == v:
+            continue
+        try:
+            if k.startswith("pandas."):
+                import ast
+                pd.set_option(k[len("pandas."):], ast.literal_eval(v))
+            elif k.startswith("numpy.err."):
+                np.seterr(**{k[len("numpy.err."):]: v})
+        except Exception:
+            pass
+
+
+_EXT = {"done": False}
+
+
+def ensure_extensions():
+    """Custom dataframe-level check registered once per process (what a user
+    module does at import time), so that model Config attributes can name it."""
+    if _EXT["done"]:
+        return
+    import pandera.extensions as ext
+    from pandera.api.checks import Check
+    if not hasattr(Check, "pvm_c07_row_total_below"):
+        @ext.register_check_method(statistics=["limit"])
+        def pvm_c07_row_total_below(df, *, limit):
+            return (df["a"] + df["b"]) < limit
+    _EXT["done"] = True
+
+
 class Built:
     def __init__(self):
         self.thunks = []
         self.labels = []
         self.schemas = {}
         self.cleanup = None
+        # post(): {label: schema} that exist only after the calls ran (the
+        # schema a model class compiled and cached on first use)
+        self.post = None
 
     def add(self, label, thunk):
         self.labels.append(label)
@@ -76,6 +180,8 @@ class Built:
              "cfg.validation_enabled": c.validation_enabled,
              "cfg.cache_dataframe": c.cache_dataframe,
              "cfg.keep_cached_dataframe": c.keep_cached_dataframe}
+        for k, v in proc_state(full=False).items():
+            d["proc." + k] = v
         for lab, s in self.schemas.items():
             cols = getattr(s, "columns", None)
             if isinstance(cols, dict):
@@ -467,37 +573,161 @@ def mixed_builtin_dispatch(rng, n):
             {"a": a_bad, "s": ["y"] + sv[1:]}), lazy=True))
     return b
 
+# ------------------------------------------------------------------ defaults
+def pd_defaults_object(rng, n, variant=0):
+    """Filling ``default=`` values into object columns that contain nulls:
+    a DataFrameSchema with column defaults in one thread, a SeriesSchema / a
+    stand-alone Column with a default / a user check that relies on pandas'
+    own fill semantics (fillna on an object column infers the narrower dtype)
+    in the other.  Nothing pandera-owned is shared, only the process."""
+    import pandera as pa
+    rows = rng.randint(3, 5)
+
+    def holes(vals, k=None):
+        vals = list(vals)
+        for i in rng.sample(range(len(vals)), k or rng.randint(1, 2)):
+            vals[i] = None
+        return vals
+
+    cols = {"a": pa.Column(int, pa.Check.ge(0), default=rng.choice([0, 1, 7])),
+            "b": pa.Column(float, default=rng.choice([0.5, -1.0])),
+            "c": pa.Column(str, default=rng.choice(["z", ""]),
+                           required=rng.random() < 0.7)}
+    if rng.random() < 0.5:
+        cols["d"] = pa.Column(bool, default=rng.random() < 0.5)
+    S = pa.DataFrameSchema(cols, coerce=rng.random() < 0.25)
+    data = {"a": pd.Series(holes(range(1, rows + 1)), dtype=object),
+            "b": pd.Series(holes([i + 0.25 for i in range(rows)]), dtype=object),
+            "c": pd.Series(holes(["x"] * rows), dtype=object)}
+    if "d" in cols:
+        data["d"] = pd.Series(holes([True] * rows), dtype=object)
+    frame = pd.DataFrame(data)
+    frame2 = pd.DataFrame({k: pd.Series(holes(v.dropna().tolist() * 2)[:rows],
+                                        dtype=object)
+                           for k, v in data.items()})
+    if rng.random() < 0.4:                     # the default itself fails a check
+        frame2.loc[0, "a"] = -3
+
+    SS = pa.SeriesSchema(int, pa.Check.lt(1000), default=rng.choice([0, 5]),
+                         name="a")
+    ser = pd.Series(holes(range(7, 7 + rows)), dtype=object, name="a")
+    COL = pa.Column(int, default=rng.choice([0, 3]), name="a")
+    cframe = pd.DataFrame({"a": pd.Series(holes(range(rows)), dtype=object),
+                           "k": ["u"] * rows})
+    # a user check that looks at what pandas' fillna makes of an object column
+    U = pa.DataFrameSchema({"o": pa.Column(
+        object, pa.Check(lambda s: s.fillna(0).dtype.kind in "iu",
+                         name="filled_is_integer"), nullable=True)})
+    uframe = pd.DataFrame({"o": pd.Series(holes(range(rows)), dtype=object)})
+    uframe_bad = pd.DataFrame({"o": pd.Series(holes(["p"] * rows), dtype=object)})
+
+    others = [("SS(int, default).validate(object series with nulls)",
+               _v(SS, ser, lazy=rng.random() < 0.3)),
+              ("S.validate(second frame with nulls)",
+               _v(S, frame2, lazy=rng.random() < 0.5)),
+              ("COL(int, default).validate(frame with nulls)", _v(COL, cframe)),
+              ("U.validate(object column, check uses fillna)",
+               _v(U, uframe, lazy=rng.random() < 0.5)),
+              ("U.validate(strings: check fails)", _v(U, uframe_bad, lazy=True))]
+    # variant decides which call meets the frame-level default fill first
+    k = variant % len(others)
+    order = others[k:] + others[:k]
+    b = Built()
+    b.schemas.update({"S": S, "SS": SS, "COL": COL, "U": U})
+    b.add("S.validate(frame, object columns with nulls)", _v(S, frame))
+    for lab, th in order[:n - 1]:
+        b.add(lab, th)
+    return b
+
+
 # ------------------------------------------------------------------ registries
-_MODEL_SEQ = [0]
-
-
-def model_first_use(rng, n):
-    """First use of a DataFrameModel (MODEL_CACHE filled by to_schema)."""
-    polars = rng.random() < 0.35
-    _MODEL_SEQ[0] += 1
-    name = f"M{_MODEL_SEQ[0]}"
-    rows = rng.randint(2, 4)
-    if polars:
-        import pandera.polars as pap
-        M = type(name, (pap.DataFrameModel,), {
-            "__annotations__": {"a": int, "b": str},
-            "a": pap.Field(gt=0), "__module__": __name__})
-        good = pl.DataFrame({"a": list(range(1, rows + 1)), "b": ["x"] * rows})
-        bad = pl.DataFrame({"a": [0] * rows, "b": ["x"] * rows})
-    else:
-        import pandera as pa
-        M = type(name, (pa.DataFrameModel,), {
-            "__annotations__": {"a": int, "b": str},
-            "a": pa.Field(gt=0), "b": pa.Field(isin=["x", "y"]),
-            "__module__": __name__})
-        good = pd.DataFrame({"a": list(range(1, rows + 1)), "b": ["x"] * rows})
-        bad = pd.DataFrame({"a": [0] * rows, "b": ["x"] * rows})
+def model_first_use(rng, n, variant=0):
+    """First use of a DataFrameModel class by all threads at once (to_schema
+    compiles the class lazily, parks intermediate results on the class and
+    fills MODEL_CACHE).  The vocabulary of the model is widened by variant:
+    Config attributes that name dataframe-level checks (registered custom
+    check or built-in), @dataframe_check / @check / @parser methods, Config
+    options, inheritance (a parent and its child used for the first time
+    together).  ``post`` hands out the schema cached for the class."""
+    ensure_extensions()
+    shape = ("pd_extras", "pl_extras", "pd_inherit", "pd_plain", "pl_plain",
+             "pd_extras_builtin")
+    kind = shape[variant] if variant < 2 else rng.choice(shape)
+    polars = kind.startswith("pl_")
+    rows = rng.randint(3, 4)
+    name = f"M_{kind}"
     b = Built()
     b.uses_polars = polars
-    b.add("M.validate(good)", _v(M, good))
-    b.add("M.validate(bad)", _v(M, bad, lazy=rng.random() < 0.5))
+    if polars:
+        import pandera.polars as pap
+        ns = {"__annotations__": {"a": int, "b": int},
+              "a": pap.Field(gt=0), "__module__": __name__}
+        if kind == "pl_extras":
+            def a_le_b(cls, data):
+                return data.lazyframe.select(pl.col("a") <= pl.col("b"))
+            ns["a_le_b"] = pap.dataframe_check(a_le_b)
+            ns["Config"] = type("Config", (), {
+                "ge": 3, "strict": rng.random() < 0.5})
+        M = type(name, (pap.DataFrameModel,), ns)
+        models = [M]
+        mk = pl.DataFrame
+    else:
+        import pandera as pa
+        ns = {"__annotations__": {"a": int, "b": int},
+              "a": pa.Field(gt=0), "b": pa.Field(lt=1000),
+              "__module__": __name__}
+        if kind in ("pd_extras", "pd_extras_builtin", "pd_inherit"):
+            def a_le_b(cls, df):
+                return df["a"] <= df["b"]
+            ns["a_le_b"] = pa.dataframe_check(a_le_b)
+            cfg = {"strict": rng.random() < 0.5}
+            if kind == "pd_extras_builtin":
+                cfg["in_range"] = {"min_value": 1, "max_value": 8}
+            else:
+                cfg["pvm_c07_row_total_below"] = 10
+            if rng.random() < 0.5:
+                cfg["le"] = 9
+            ns["Config"] = type("Config", (), cfg)
+            if rng.random() < 0.5:
+                def small_a(cls, s):
+                    return s < 100
+                ns["small_a"] = pa.check("a")(small_a)
+            if rng.random() < 0.4:
+                def keep_a(cls, s):
+                    return s + 0
+                ns["keep_a"] = pa.parser("a")(keep_a)
+        M = type(name, (pa.DataFrameModel,), ns)
+        models = [M]
+        if kind == "pd_inherit":
+            C = type(name + "_child", (M,), {
+                "__annotations__": {"c": int}, "c": pa.Field(ge=0),
+                "__module__": __name__})
+            models = [C, M]
+        mk = pd.DataFrame
+    # row 1 fails "a <= b" and the row total; the last row only the total
+    bad1 = {"a": [1, 9, 3, 2][:rows], "b": [2, 8, 4, 5][:rows]}
+    bad2 = {"a": ([1, 2, 2] + [7])[-rows:], "b": ([5, 6, 6] + [8])[-rows:]}
+    good = {"a": [1, 2, 3, 1][:rows], "b": [2, 3, 4, 5][:rows]}
+
+    def frame(d, model):
+        d = dict(d)
+        if kind == "pd_inherit" and model is models[0]:
+            d["c"] = list(range(rows))
+        return mk(d)
+    lazy1 = True if variant < 2 else rng.random() < 0.7
+    m0, m1 = models[0], models[-1]
+    b.add(f"{m0.__name__}.validate(bad rows) lazy",
+          _v(m0, frame(bad1, m0), lazy=True))
+    if rng.random() < 0.6:
+        b.add(f"{m1.__name__}.validate(other bad rows) lazy={lazy1}",
+              _v(m1, frame(bad2, m1), lazy=lazy1))
+    else:
+        b.add(f"{m1.__name__}.validate(good)", _v(m1, frame(good, m1)))
     if n == 3:
-        b.add("M.validate(good) #2", _v(M, good, lazy=True))
+        b.add(f"{m0.__name__}.validate(good) lazy",
+              _v(m0, frame(good, m0), lazy=True))
+    b.post = lambda: {f"MODEL_CACHE[{m.__name__}]": m.to_schema()
+                      for m in models}
     return b
 
 
@@ -521,9 +751,19 @@ def registry_first_use(rng, n):
     saved = [dict(r) for r in _registries()]
     for r in _registries():
         r.clear()
-    register_pandas_backends.cache_clear()
-    register_polars_backends.cache_clear()
-    ptypes.get_backend_types.cache_clear()
+    # the registration functions remember that they ran (lru_cache on the
+    # unchanged tree); where an implementation keeps that memory elsewhere the
+    # in-process reset is not a first use any more - the cold family
+    # (pvm/c07_cold.py, fresh interpreter state per schedule) is the faithful
+    # one, this scenario then only exercises a cleared registry
+    faithful = True
+    for fn in (register_pandas_backends, register_polars_backends,
+               ptypes.get_backend_types):
+        clear = getattr(fn, "cache_clear", None)
+        if clear is None:
+            faithful = False
+        else:
+            clear()
 
     def cleanup():
         for r, old in zip(_registries(), saved):
@@ -540,6 +780,8 @@ def registry_first_use(rng, n):
     pbad = pl.DataFrame({"a": [0] * rows})
     b = Built()
     b.cleanup = cleanup
+    b.note = None if faithful else \
+        "undecided:in-process registry reset not a faithful first use"
     b.uses_polars = mode != "pandas"
     b.schemas.update({"D": ds, "Se": ss, "P": ps})
     if mode == "pandas":
@@ -580,14 +822,16 @@ SCENARIOS = {
                                        {"pandas_shared": True}),
     "pd_shared_tz_agnostic": (pd_shared_tz_agnostic, {"pandas_shared": True}),
     "mixed_builtin_dispatch": (mixed_builtin_dispatch, {"config": True}),
+    "pd_defaults_object": (pd_defaults_object, {}),
 }
+TAKES_VARIANT = {"model_first_use", "pd_defaults_object"}
 ORDER = list(SCENARIOS)
 
 
 def build(name, variant, n, seed):
     fn, flags = SCENARIOS[name]
     rng = random.Random(f"c07|{seed}|{name}|{variant}")
-    b = fn(rng, n)
+    b = fn(rng, n, variant) if name in TAKES_VARIANT else fn(rng, n)
     fl = dict(flags)
     if fl.get("config") == "if_polars":
         fl["config"] = bool(getattr(b, "uses_polars", False))
